@@ -317,7 +317,8 @@ def part_diffuse(ctx, nss, RegionGeom):
                                            "after": [float(got2[0]), float(got2[1]), int(got2[2])]})
                     geom.throw(u)
                     # (b) raise the threshold
-                    thr2 = ins["thr"] * float(rng.choice([1.0 + 1e-12, 1.5, 10.0]))
+                    f_ = float(rng.choice([1.0 + 1e-12, 1.5, 10.0]))
+                    thr2 = ins["thr"] * f_ if ins["thr"] > 0 else ins["thr"] + abs(ins["thr"]) * (f_ - 1.0) + (f_ - 1.0)   # a HIGHER threshold, whatever its sign
                     got3 = geom.mcintegral(ins["trig"], ins["coseff"], ins["p"], thr2, ins["sn"], ins["ss"])
                     ctx.case(n=1)
                     wv = geom.costhetaTrSubN[m] / geom.costhetaNSubV[m] / geom.costhetaTrSubV[m]
